@@ -8,7 +8,7 @@ From Coq Require Import String ZArith Bool Arith List.
 From SV Require Import Names NamesFacts ListFacts Rep Fresh Complex Atomic RepInv Reach Homology Filtration Gen World WorldProofs Shapes CopyFaithful CopyAttrs.
 From SV Require Import VInv CopyOk.
 
-From SV Require Closed Listing VInv VIso.
+From SV Require Closed Listing VInv VIso CpsGen ComposeFresh.
 
 Theorem C09_copy_is_fresh :
   forall hp src uid hp' r' x, copy_new hp src uid = (hp', r', x) ->
@@ -83,3 +83,35 @@ Theorem C09_copy_never_fails :
   forall src, vinv src -> forall hp uid, exists hp' c, copy_new hp (view_of src) uid = (hp', c, Ok tt).
 Proof. exact copy_new_succeeds. Qed.
 Print Assumptions C09_copy_never_fails.
+
+(* flagComplex() -- a copy, then the sweep, which adds simplices without attributes -- returns a complex that owns
+   every one of its dictionaries and writes no dictionary of anybody else, whatever its outcome; the result of
+   vietorisRipsComplex() is flagComplex() of a private complex, so the same holds for it; growFlagComplex keeps a
+   complex the owner of its dictionaries.  With C09_different_owners_share_nothing: the result shares no
+   dictionary with its source or with any other complex. *)
+Theorem C09_flag_complex_is_fresh :
+  forall hp src uid hp' r' x, Homology.flagComplex hp src uid = (hp', r', x) ->
+  owned r' /\ r_uid r' = uid /\ forall h, fst h <> uid -> heap_get hp' h = heap_get hp h.
+Proof. exact CpsGen.flagComplex_fresh. Qed.
+Print Assumptions C09_flag_complex_is_fresh.
+Theorem C09_vietoris_rips_complex_is_fresh :
+  forall hp uid0 u r close vr hp' r' x, vr_build uid0 r close = (vr, Ok tt) ->
+  Homology.flagComplex hp vr u = (hp', r', x) ->
+  owned r' /\ r_uid r' = u /\ forall h, fst h <> u -> heap_get hp' h = heap_get hp h.
+Proof. intros hp uid0 u r close vr hp' r' x _. apply CpsGen.flagComplex_fresh. Qed.
+Print Assumptions C09_vietoris_rips_complex_is_fresh.
+Theorem C09_grow_keeps_ownership :
+  forall r news r' x, owned r -> Homology.growFlagComplex r news = (r', x) -> owned r' /\ r_uid r' = r_uid r.
+Proof. exact CpsGen.growFlagComplex_owned. Qed.
+Print Assumptions C09_grow_keeps_ownership.
+
+(* compose(): the result -- new, or the caller's target if that owns its dictionaries -- owns every one of its
+   dictionaries (merged and handed-over ones are new cells of that owner) and no cell of another owner is written,
+   whatever the outcome *)
+Theorem C09_compose_is_fresh :
+  (forall hp a c uid hp' d x, Homology.compose hp a c None uid = (hp', d, x) ->
+     owned d /\ r_uid d = uid /\ forall h, fst h <> uid -> heap_get hp' h = heap_get hp h) /\
+  (forall hp a c t uid hp' d x, owned t -> Homology.compose hp a c (Some t) uid = (hp', d, x) ->
+     owned d /\ r_uid d = r_uid t /\ forall h, fst h <> r_uid t -> heap_get hp' h = heap_get hp h).
+Proof. split; [exact ComposeFresh.compose_fresh|exact ComposeFresh.compose_into_fresh]. Qed.
+Print Assumptions C09_compose_is_fresh.
